@@ -27,7 +27,7 @@ theorem conv_installed (p n : Nat) (s : PSpec) (via : Via) (c : Conv) (args : Li
         calls := [{ callee := expectedCallee p s (installedObj { spec := s, new := maybeWrapNew p s } p n).tok,
                     args := pre ++ args, kw := kw }] } := by
   obtain ⟨t, repl, cr, an, vo, bh, sl, sh⟩ := s
-  rcases repl with _ | _ | _ | _ | _ | _ | _ | _ | (_ | _) <;> cases via <;> cases c <;>
+  rcases repl with _ | _ | _ | _ | _ | _ | _ | _ | (_ | _) | (_ | _ | _) <;> cases via <;> cases c <;>
     simp_all [expectedPrefix, Repl.desc?, bindPrefix, installedObj, maybeWrapNew, freshObj, Shape.callable,
       Repl.isCallable, Repl.acceptsAttrs, conv, invoke, expectedCallee, Obj.tok]
 
@@ -45,9 +45,10 @@ structure Rel (env : Env) (w : Watch) (st : State) : Prop where
   actNodup : st.active.Nodup
   untainted : w.tainted = false
   bind : w.bind = st.bind
+  entries : ∀ p, w.entries p = st.entries p
 
 theorem rel_init (env : Env) : Rel env watchInit (init env) :=
-  ⟨fun _ => rfl, fun _ _ h => (by cases h), rfl, rfl, rfl, inv_init env, fun _ h => (by cases h), List.nodup_nil, rfl, rfl⟩
+  ⟨fun _ => rfl, fun _ _ h => (by cases h), rfl, rfl, rfl, inv_init env, fun _ h => (by cases h), List.nodup_nil, rfl, rfl, fun _ => rfl⟩
 
 theorem peeks_eq (env : Env) (w : Watch) (st : State) (hs : w.stack = mapStk Obj.tok st.stack)
     (hi : ∀ t, st.store t = expectAt env.initStore st.stack t) : peekAll env st = expectedPeeks env w := by
@@ -65,14 +66,14 @@ theorem peekAll_congr (env : Env) (st st' : State) (h : st'.store = st.store) : 
 
 theorem rel_skip (env : Env) (w : Watch) (st : State) (k : Option (Nat × Nat)) (h : Rel env w st) :
     Rel env { w with skip := k } { st with skip := k } :=
-  ⟨h.specs, h.wf, h.stack, h.active, rfl, inv_skip env st k h.inv, h.actOpen, h.actNodup, h.untainted, h.bind⟩
+  ⟨h.specs, h.wf, h.stack, h.active, rfl, inv_skip env st k h.inv, h.actOpen, h.actNodup, h.untainted, h.bind, h.entries⟩
 
 theorem step_skipping (env : Env) (w : Watch) (st : State) (op : Op) (h : Rel env w st) (q d : Nat)
     (hsk : st.skip = some (q, d)) :
     ∃ w', watchStep env w (observe env st op).2 = .ok w' ∧ Rel env w' (observe env st op).1 := by
   have hw : w.skip = some (q, d) := by rw [h.skip, hsk]
   have hp := rel_peeks env w st h
-  obtain ⟨wspecs, wstack, wactive, wskip, wtainted, wbind⟩ := w
+  obtain ⟨wspecs, wstack, wactive, wskip, wtainted, wbind, wentries⟩ := w
   have ht : wtainted = false := h.untainted
   subst ht
   simp only [] at hw
@@ -116,7 +117,7 @@ theorem step_construct (env : Env) (w : Watch) (st : State) (p : Nat) (s : PSpec
   have hinv := inv_step env st (.construct p s) h.inv (Or.inr rfl)
   have hs := h.specs p
   have hc' : (retarget st.bind s).constructible env.defaults = true := hc
-  obtain ⟨wspecs, wstack, wactive, wskip, wtainted, wbind⟩ := w
+  obtain ⟨wspecs, wstack, wactive, wskip, wtainted, wbind, wentries⟩ := w
   have ht : wtainted = false := h.untainted
   subst ht
   have hw : wskip = none := by have := h.skip; simp only [] at this; rw [this, hsk]
@@ -136,7 +137,7 @@ theorem step_construct (env : Env) (w : Watch) (st : State) (p : Nat) (s : PSpec
     simp only [hpt, Option.map, construct_ok env.defaults p (retarget st.bind s) hc'] at hs hinv ⊢
     simp only [peekAll] at hp ⊢
     simp only [hs, hp, bne_self_eq_false, Bool.false_eq_true, if_false]
-    refine ⟨_, rfl, ⟨fun q => ?_, fun q pt hq => ?_, h.stack, h.active, rfl, hinv, h.actOpen, h.actNodup, rfl, rfl⟩⟩
+    refine ⟨_, rfl, ⟨fun q => ?_, fun q pt hq => ?_, h.stack, h.active, rfl, hinv, h.actOpen, h.actNodup, rfl, rfl, h.entries⟩⟩
     · by_cases hq : q = p
       · simp [upd, hq]
       · simp only [upd, hq, if_false]; exact h.specs q
@@ -147,7 +148,7 @@ theorem step_construct (env : Env) (w : Watch) (st : State) (p : Nat) (s : PSpec
 theorem step_peek (env : Env) (w : Watch) (st : State) (h : Rel env w st) (hsk : st.skip = none) :
     ∃ w', watchStep env w (observe env st .peek).2 = .ok w' ∧ Rel env w' (observe env st .peek).1 := by
   have hp := rel_peeks env w st h
-  obtain ⟨wspecs, wstack, wactive, wskip, wtainted, wbind⟩ := w
+  obtain ⟨wspecs, wstack, wactive, wskip, wtainted, wbind, wentries⟩ := w
   have ht : wtainted = false := h.untainted
   subst ht
   have hw : wskip = none := by have := h.skip; simp only [] at this; rw [this, hsk]
@@ -162,7 +163,7 @@ theorem step_call (env : Env) (w : Watch) (st : State) (t : Nat) (args : List Na
       Rel env w' (observe env st (.call t args kw)).1 := by
   have hp := rel_peeks env w st h
   have hstk := h.stack
-  obtain ⟨wspecs, wstack, wactive, wskip, wtainted, wbind⟩ := w
+  obtain ⟨wspecs, wstack, wactive, wskip, wtainted, wbind, wentries⟩ := w
   have ht : wtainted = false := h.untainted
   subst ht
   have hw : wskip = none := by have := h.skip; simp only [] at this; rw [this, hsk]
@@ -210,7 +211,7 @@ theorem step_call (env : Env) (w : Watch) (st : State) (t : Nat) (args : List Na
 theorem step_rebind (env : Env) (w : Watch) (st : State) (a b : Nat) (h : Rel env w st) (hsk : st.skip = none) :
     ∃ w', watchStep env w (observe env st (.rebind a b)).2 = .ok w' ∧ Rel env w' (observe env st (.rebind a b)).1 := by
   have hp := rel_peeks env w st h
-  obtain ⟨wspecs, wstack, wactive, wskip, wtainted, wbind⟩ := w
+  obtain ⟨wspecs, wstack, wactive, wskip, wtainted, wbind, wentries⟩ := w
   have ht : wtainted = false := h.untainted
   subst ht
   have hw : wskip = none := by have := h.skip; simp only [] at this; rw [this, hsk]
@@ -221,7 +222,7 @@ theorem step_rebind (env : Env) (w : Watch) (st : State) (a b : Nat) (h : Rel en
   simp only [peekAll] at hp ⊢
   simp only [hsk, hp, bne_self_eq_false, Bool.false_eq_true, if_false]
   exact ⟨_, rfl, ⟨h.specs, h.wf, h.stack, h.active, rfl, ⟨h.inv.store, h.inv.saved, h.inv.nodup⟩, h.actOpen, h.actNodup,
-    rfl, rfl⟩⟩
+    rfl, rfl, h.entries⟩⟩
 
 theorem present_eq (env : Env) (st : State) (t : Nat) (hi : ∀ t, st.store t = expectAt env.initStore st.stack t) :
     ((expectAt (fun t => (env.initStore t).map Obj.tok) (mapStk Obj.tok st.stack) t).isSome || (env.inh t).isSome)
@@ -233,6 +234,26 @@ theorem present_eq (env : Env) (st : State) (t : Nat) (hi : ∀ t, st.store t = 
 theorem tok_value (p n : Nat) (s : PSpec) (h : s.repl = .value) :
     (installedObj { spec := s, new := maybeWrapNew p s } p n).tok = { id := s.newId p, tag := .asis } := by
   simp [installedObj, maybeWrapNew, h, Repl.desc?, Repl.isCallable, Shape.callable, Obj.tok, PSpec.newId]
+
+/-- what the model installs is, for every replacement kind, the object the observer expects -/
+theorem tok_installed (p n : Nat) (s : PSpec) :
+    (installedObj { spec := s, new := maybeWrapNew p s } p n).tok = expectedTok p n s := by
+  obtain ⟨t, repl, cr, an, vo, bh, sl, sh⟩ := s
+  rcases repl with _ | _ | _ | _ | _ | _ | _ | _ | (_ | _) | (_ | _ | _) <;>
+    simp [installedObj, maybeWrapNew, freshObj, Repl.desc?, Repl.isCallable, Repl.acceptsAttrs, Shape.callable, Obj.tok,
+      PSpec.newId, expectedTok]
+
+/-- the model's counter of made objects moves exactly when the observer's does -/
+theorem entries_step (p : Nat) (s : PSpec) (f g : Nat → Nat) (h : ∀ q, f q = g q) (q : Nat) :
+    (if s.repl.makesFresh then upd f p (f p + 1) else f) q =
+      upd g p (match maybeWrapNew p s with | some _ => g p | none => g p + 1) q := by
+  obtain ⟨t, repl, cr, an, vo, bh, sl, sh⟩ := s
+  by_cases hq : q = p
+  · subst hq
+    rcases repl with _ | _ | _ | _ | _ | _ | _ | _ | (_ | _) | (_ | _ | _) <;>
+      simp [Repl.makesFresh, maybeWrapNew, Repl.desc?, Repl.isCallable, Repl.acceptsAttrs, upd, h]
+  · rcases repl with _ | _ | _ | _ | _ | _ | _ | _ | (_ | _) | (_ | _ | _) <;>
+      simp [Repl.makesFresh, maybeWrapNew, Repl.desc?, Repl.isCallable, Repl.acceptsAttrs, upd, h, hq]
 
 theorem isOpen_cons_of {α : Type} (q : Nat) (e : Entry α) (stk : List (Entry α)) (h : isOpen q stk = true) :
     isOpen q (e :: stk) = true := by
@@ -262,7 +283,7 @@ theorem rel_resolve (env : Env) (w : Watch) (st : State) (p : Nat) (pt0 : Patche
     Rel env { w with specs := upd w.specs p (some (resolveP st.bind pt0).spec) }
       (setPatcher st p (resolveP st.bind pt0)) := by
   refine ⟨fun q => ?_, fun q pt hq => ?_, h.stack, h.active, h.skip, inv_setPatcher env st p _ h.inv hopen,
-    h.actOpen, h.actNodup, h.untainted, h.bind⟩
+    h.actOpen, h.actNodup, h.untainted, h.bind, h.entries⟩
   · by_cases hq : q = p
     · simp [setPatcher, upd, hq]
     · simp only [setPatcher, upd, hq, if_false]; exact h.specs q
@@ -283,8 +304,10 @@ def enterCore (env : Env) (w : Watch) (ob : Obs) (p : Nat) (isStart : Bool) (s :
   else
     match ob.res with
     | .entered o =>
-      if s.repl == .value && o != { id := s.newId p, tag := .asis } then .error "noncallable-as-is" else
-      let w' := { w with stack := { p := p, t := s.target, o := o } :: w.stack, active := if isStart then w.active ++ [p] else w.active }
+      if o != expectedTok p (w.entries p) s then
+        .error (if s.repl == .value then "noncallable-as-is" else "installed-object") else
+      let w' := { w with stack := { p := p, t := s.target, o := o } :: w.stack, active := if isStart then w.active ++ [p] else w.active,
+                         entries := if s.repl.makesFresh then upd w.entries p (w.entries p + 1) else w.entries }
       if ob.peeks == expectedPeeks env w' then .ok w' else .error "installed"
     | _ => .error "enter"
 
@@ -324,7 +347,7 @@ theorem enterCore_enter (env : Env) (w : Watch) (st : State) (p : Nat) (pt : Pat
         p false pt.spec = .ok w' ∧ Rel env w' (enterThen env pt p st).1 := by
   have hp := rel_peeks env w st h
   have hstk := h.stack
-  obtain ⟨wspecs, wstack, wactive, wskip, wtainted, wbind⟩ := w
+  obtain ⟨wspecs, wstack, wactive, wskip, wtainted, wbind, wentries⟩ := w
   have ht : wtainted = false := h.untainted
   subst ht
   have hw : wskip = none := by have := h.skip; simp only [] at this; rw [this, hsk]
@@ -347,23 +370,26 @@ theorem enterCore_enter (env : Env) (w : Watch) (st : State) (p : Nat) (pt : Pat
   · have hfail' : ¬ (!pt.spec.create && !(getOriginal env st pt.spec.target).1.isSome) = true := by
       simpa using hfail
     simp only [hfail, hfail', Bool.false_eq_true, if_false] at hinv ⊢
-    have hval : ¬ ((pt.spec.repl == Repl.value &&
-        (installedObj pt p (st.entries p)).tok != { id := pt.spec.newId p, tag := Tag.asis }) = true) := by
-      intro hc
-      simp only [Bool.and_eq_true, beq_iff_eq, bne_iff_ne] at hc
-      apply hc.2
-      rw [hwf]
-      exact tok_value p _ pt.spec hc.1
-    simp only [hval, if_false]
+    have hent : wentries p = st.entries p := h.entries p
+    have hnew : pt.new = maybeWrapNew p pt.spec := congrArg Patcher.new hwf
+    have htok : (installedObj pt p (st.entries p)).tok = expectedTok p (wentries p) pt.spec := by
+      rw [hent, hwf]
+      exact tok_installed p _ pt.spec
+    simp only [htok, bne_self_eq_false, Bool.false_eq_true, if_false]
+    rw [← htok]
     have hrel : Rel env
         { specs := wspecs, stack := { p := p, t := pt.spec.target, o := (installedObj pt p (st.entries p)).tok } ::
-            mapStk Obj.tok st.stack, active := wactive, skip := none, tainted := false, bind := wbind }
+            mapStk Obj.tok st.stack, active := wactive, skip := none, tainted := false, bind := wbind,
+          entries := if pt.spec.repl.makesFresh then upd wentries p (wentries p + 1) else wentries }
         { st with store := upd st.store pt.spec.target (some (installedObj pt p (st.entries p))),
                   saved := upd st.saved p (some (getOriginal env st pt.spec.target)),
                   entries := upd st.entries p (match pt.new with | some _ => st.entries p | none => st.entries p + 1),
                   stack := { p := p, t := pt.spec.target, o := installedObj pt p (st.entries p) } :: st.stack } :=
       ⟨h.specs, h.wf, rfl, h.active, (by simp only [hsk]), hinv, fun q hq => isOpen_cons_of q _ _ (h.actOpen q hq),
-        h.actNodup, rfl, h.bind⟩
+        h.actNodup, rfl, h.bind, fun q => by
+          show (if pt.spec.repl.makesFresh then upd wentries p (wentries p + 1) else wentries) q =
+            upd st.entries p (match pt.new with | some _ => st.entries p | none => st.entries p + 1) q
+          rw [hnew]; exact entries_step p pt.spec wentries st.entries h.entries q⟩
     have hp2 := rel_peeks env _ _ hrel
     simp only [peekAll] at hp2 ⊢
     simp only [hp2, beq_self_eq_true, if_true, Bool.false_eq_true, if_false]
@@ -375,7 +401,7 @@ theorem enterCore_start (env : Env) (w : Watch) (st : State) (p : Nat) (pt : Pat
         p true pt.spec = .ok w' ∧ Rel env w' (start env pt p st).1 := by
   have hp := rel_peeks env w st h
   have hstk := h.stack
-  obtain ⟨wspecs, wstack, wactive, wskip, wtainted, wbind⟩ := w
+  obtain ⟨wspecs, wstack, wactive, wskip, wtainted, wbind, wentries⟩ := w
   have ht : wtainted = false := h.untainted
   subst ht
   have hw : wskip = none := by have := h.skip; simp only [] at this; rw [this, hsk]
@@ -398,17 +424,17 @@ theorem enterCore_start (env : Env) (w : Watch) (st : State) (p : Nat) (pt : Pat
   · have hfail' : ¬ (!pt.spec.create && !(getOriginal env st pt.spec.target).1.isSome) = true := by
       simpa using hfail
     simp only [hfail, hfail', Bool.false_eq_true, if_false] at hinv ⊢
-    have hval : ¬ ((pt.spec.repl == Repl.value &&
-        (installedObj pt p (st.entries p)).tok != { id := pt.spec.newId p, tag := Tag.asis }) = true) := by
-      intro hc
-      simp only [Bool.and_eq_true, beq_iff_eq, bne_iff_ne] at hc
-      apply hc.2
-      rw [hwf]
-      exact tok_value p _ pt.spec hc.1
-    simp only [hval, if_false]
+    have hent : wentries p = st.entries p := h.entries p
+    have hnew : pt.new = maybeWrapNew p pt.spec := congrArg Patcher.new hwf
+    have htok : (installedObj pt p (st.entries p)).tok = expectedTok p (wentries p) pt.spec := by
+      rw [hent, hwf]
+      exact tok_installed p _ pt.spec
+    simp only [htok, bne_self_eq_false, Bool.false_eq_true, if_false]
+    rw [← htok]
     have hrel : Rel env
         { specs := wspecs, stack := { p := p, t := pt.spec.target, o := (installedObj pt p (st.entries p)).tok } ::
-            mapStk Obj.tok st.stack, active := wactive ++ [p], skip := none, tainted := false, bind := wbind }
+            mapStk Obj.tok st.stack, active := wactive ++ [p], skip := none, tainted := false, bind := wbind,
+          entries := if pt.spec.repl.makesFresh then upd wentries p (wentries p + 1) else wentries }
         { st with store := upd st.store pt.spec.target (some (installedObj pt p (st.entries p))),
                   saved := upd st.saved p (some (getOriginal env st pt.spec.target)),
                   entries := upd st.entries p (match pt.new with | some _ => st.entries p | none => st.entries p + 1),
@@ -418,7 +444,7 @@ theorem enterCore_start (env : Env) (w : Watch) (st : State) (p : Nat) (pt : Pat
       have hnot : p ∉ st.active := fun hin => by
         have := h.actOpen p hin; rw [hopen] at this; cases this
       refine ⟨h.specs, h.wf, rfl, (by simp only [hact]), (by simp only [hsk]), inv_active env _ _ hinv, fun q hq => ?_, ?_, rfl,
-        h.bind⟩
+        h.bind, fun q => ?_⟩
       · simp only [List.mem_append, List.mem_singleton] at hq
         cases hq with
         | inl hq => exact isOpen_cons_of q _ _ (h.actOpen q hq)
@@ -428,6 +454,9 @@ theorem enterCore_start (env : Env) (w : Watch) (st : State) (p : Nat) (pt : Pat
         simp only [List.mem_singleton] at hb
         subst hb
         exact fun hab => hnot (hab ▸ ha)
+      · show (if pt.spec.repl.makesFresh then upd wentries p (wentries p + 1) else wentries) q =
+          upd st.entries p (match pt.new with | some _ => st.entries p | none => st.entries p + 1) q
+        rw [hnew]; exact entries_step p pt.spec wentries st.entries h.entries q
     have hp2 := rel_peeks env _ _ hrel
     simp only [peekAll] at hp2 ⊢
     simp only [hp2, beq_self_eq_true, if_true]
@@ -545,6 +574,10 @@ theorem exit_bind (env : Env) (pt : Patcher) (p : Nat) (exc : Bool) (st : State)
     (exit env pt p exc st).1.bind = st.bind := by
   unfold exit; split <;> rfl
 
+theorem exit_entries (env : Env) (pt : Patcher) (p : Nat) (exc : Bool) (st : State) :
+    (exit env pt p exc st).1.entries = st.entries := by
+  unfold exit; split <;> rfl
+
 /-- ending a well-nested patch: the model's `__exit__` succeeds and the relation continues with the entry removed -/
 theorem rel_exit (env : Env) (w : Watch) (st : State) (p : Nat) (pt : Patcher) (exc : Bool) (h : Rel env w st)
     (hpt : st.patchers p = some pt) (htop : isTop pt.spec.target p st.stack = true) (hact : p ∉ st.active) :
@@ -552,7 +585,7 @@ theorem rel_exit (env : Env) (w : Watch) (st : State) (p : Nat) (pt : Patcher) (
       Rel env { w with stack := eraseP p w.stack } (exit env pt p exc st).1 := by
   have hinv := inv_exit env st pt p exc h.inv hpt htop
   obtain ⟨hres, hstk, hactive, hpat, hskip⟩ := exit_res env st pt p exc h.inv hpt htop
-  refine ⟨hres, ⟨?_, ?_, ?_, ?_, ?_, hinv, ?_, ?_, h.untainted, ?_⟩⟩
+  refine ⟨hres, ⟨?_, ?_, ?_, ?_, ?_, hinv, ?_, ?_, h.untainted, ?_, ?_⟩⟩
   · intro q; rw [hpat]; exact h.specs q
   · intro q pt' hq; rw [hpat] at hq; exact h.wf q pt' hq
   · show eraseP p w.stack = _
@@ -568,6 +601,9 @@ theorem rel_exit (env : Env) (w : Watch) (st : State) (p : Nat) (pt : Patcher) (
   · rw [hactive]; exact h.actNodup
   · show w.bind = _
     rw [exit_bind]; exact h.bind
+  · intro q
+    show w.entries q = _
+    rw [exit_entries]; exact h.entries q
 
 theorem rel_stop (env : Env) (w : Watch) (st : State) (p : Nat) (pt : Patcher) (h : Rel env w st)
     (hpt : st.patchers p = some pt) (htop : isTop pt.spec.target p st.stack = true) (hact : p ∈ st.active) :
@@ -576,7 +612,7 @@ theorem rel_stop (env : Env) (w : Watch) (st : State) (p : Nat) (pt : Patcher) (
   have hrel0 : Rel env { w with active := w.active.erase p } { st with active := st.active.erase p } :=
     ⟨h.specs, h.wf, h.stack, (by show w.active.erase p = st.active.erase p; rw [h.active]), h.skip,
       inv_active env st _ h.inv,
-      fun q hq => h.actOpen q (List.mem_of_mem_erase hq), h.actNodup.erase p, h.untainted, h.bind⟩
+      fun q hq => h.actOpen q (List.mem_of_mem_erase hq), h.actNodup.erase p, h.untainted, h.bind, h.entries⟩
   have hnot : p ∉ ({ st with active := st.active.erase p } : State).active := by
     show p ∉ st.active.erase p
     exact fun hin => (List.Nodup.mem_erase_iff h.actNodup).1 hin |>.1 rfl
@@ -595,7 +631,7 @@ theorem step_exit (env : Env) (w : Watch) (st : State) (p : Nat) (exc : Bool) (h
   have hs := h.specs p
   have hstk := h.stack
   have hact := h.active
-  obtain ⟨wspecs, wstack, wactive, wskip, wtainted, wbind⟩ := w
+  obtain ⟨wspecs, wstack, wactive, wskip, wtainted, wbind, wentries⟩ := w
   have ht : wtainted = false := h.untainted
   subst ht
   have hw : wskip = none := by have := h.skip; simp only [] at this; rw [this, hsk]
@@ -616,14 +652,14 @@ theorem step_exit (env : Env) (w : Watch) (st : State) (p : Nat) (exc : Bool) (h
       have hp2 := rel_peeks env _ _ hrel
       have htop' : isTop pt.spec.target p wstack = true := by rw [hstk, isTop_mapStk]; exact hok.1
       have hact' : wactive.contains p = false := by rw [hact]; simpa using hok.2
-      refine ⟨{ specs := wspecs, stack := eraseP p wstack, active := wactive, skip := none, tainted := false, bind := wbind }, ?_, Or.inr ?_⟩
+      refine ⟨{ specs := wspecs, stack := eraseP p wstack, active := wactive, skip := none, tainted := false, bind := wbind, entries := wentries }, ?_, Or.inr ?_⟩
       · unfold watchStep observe step
         simp only [hsk, hpt, hs, htop', hact', Bool.false_eq_true, if_false, Bool.not_true, Bool.or_self]
         simp only [hres, hp2, bne_self_eq_false, Bool.false_eq_true, if_false]
       · unfold observe step
         simp only [hsk, hpt]
         exact hrel
-    · refine ⟨{ specs := wspecs, stack := wstack, active := wactive, skip := none, tainted := true, bind := wbind }, ?_, Or.inl rfl⟩
+    · refine ⟨{ specs := wspecs, stack := wstack, active := wactive, skip := none, tainted := true, bind := wbind, entries := wentries }, ?_, Or.inl rfl⟩
       have : (!isTop pt.spec.target p wstack || wactive.contains p) = true := by
         rw [hstk, isTop_mapStk, hact]
         by_cases h1 : isTop pt.spec.target p st.stack = true
@@ -641,7 +677,7 @@ theorem step_stop (env : Env) (w : Watch) (st : State) (p : Nat) (h : Rel env w 
   have hs := h.specs p
   have hstk := h.stack
   have hact := h.active
-  obtain ⟨wspecs, wstack, wactive, wskip, wtainted, wbind⟩ := w
+  obtain ⟨wspecs, wstack, wactive, wskip, wtainted, wbind, wentries⟩ := w
   have ht : wtainted = false := h.untainted
   subst ht
   have hw : wskip = none := by have := h.skip; simp only [] at this; rw [this, hsk]
@@ -664,14 +700,14 @@ theorem step_stop (env : Env) (w : Watch) (st : State) (p : Nat) (h : Rel env w 
         have hp2 := rel_peeks env _ _ hrel
         have htop' : isTop pt.spec.target p wstack = true := by rw [hstk, isTop_mapStk]; exact htop
         refine ⟨{ specs := wspecs, stack := eraseP p wstack, active := wactive.erase p, skip := none,
-                  tainted := false, bind := wbind }, ?_, Or.inr ?_⟩
+                  tainted := false, bind := wbind, entries := wentries }, ?_, Or.inr ?_⟩
         · unfold watchStep observe step
           simp only [hsk, hpt, hs, htop', hact', Bool.false_eq_true, if_false, Bool.not_true]
           simp only [hres, hp2, bne_self_eq_false, Bool.false_eq_true, if_false]
         · unfold observe step
           simp only [hsk, hpt]
           exact hrel
-      · refine ⟨{ specs := wspecs, stack := wstack, active := wactive, skip := none, tainted := true, bind := wbind }, ?_, Or.inl rfl⟩
+      · refine ⟨{ specs := wspecs, stack := wstack, active := wactive, skip := none, tainted := true, bind := wbind, entries := wentries }, ?_, Or.inl rfl⟩
         have htop' : isTop pt.spec.target p wstack = false := by
           rw [hstk, isTop_mapStk]; simpa using htop
         unfold watchStep observe step
